@@ -143,3 +143,10 @@ func hashOps(ops []world.Op) uint64 {
 	}
 	return h
 }
+
+func min(a, b int) int {
+	if a < b {
+		return a
+	}
+	return b
+}
